@@ -622,6 +622,8 @@ def main():
                        "norm drift of closed systems is checked against the PROVEN unitarity-defect polynomial (1+d)^steps - 1",
                        "exact comparison tolerance 1e-10 relative to the largest stored entry (the model runs in exact rational arithmetic)"]
     chk.prove()
+    import translate
+    translate.static_tie(cm, chk, PID, cm.REPO)      # second, static tie: propagator kernels regenerated from the current source
     items = {"dm": [], "sv": [], "rwa": []}
     meta = {"dm": [], "sv": [], "rwa": []}
     if args.replay:
